@@ -170,19 +170,10 @@ theorem prefix_ranges_tile (sizes : List Nat) :
     (∀ a b (hb : b < sizes.length) (hab : a < b), startOf sizes a + sizes[a]'(by omega) ≤ startOf sizes b) :=
   ranges_tile_general sizes
 
-/-- `StiffPanelBay.get_size()` equals the sum of the sizes of all ranges PROVIDED every 2-D blade stiffener has a
-flange (the full statement is false: `bay_size_counterexample`). -/
-theorem bay_size_eq_sum_partial (b : Bay K) (h : ∀ s ∈ b.b2, s.flange ≠ none) :
-    bayGetSize b = some b.rangeSizes.sum :=
-  bay_size_eq_sum_partial_aux b h
-
-/-- `get_size()` raises (`none`) as soon as one 2-D blade stiffener has no flange (`s.flange.get_size()` on `None`),
-although `calc_k0/kG0/kM` handle that stiffener (`if s.flange is not None`) and the component sizes are defined. -/
-theorem bay_size_counterexample :
-    bayGetSize (⟨3, 2, 2, [], [], [⟨some [], none, [], [], []⟩], []⟩ : Bay ℚ) = none ∧
-    (⟨3, 2, 2, [], [], [⟨some [], none, [], [], []⟩], []⟩ : Bay ℚ).rangeSizes.sum = 12 ∧
-    ∀ (b : Bay K), (∃ s ∈ b.b2, s.flange = none) → bayGetSize b = none :=
-  ⟨rfl, rfl, fun b h => bay_size_raises_aux b h⟩
+/-- `StiffPanelBay.get_size()` equals the sum of the sizes of all ranges (a flange-less 2-D blade stiffener counts 0),
+for any numbers of the three stiffener kinds. -/
+theorem bay_size_eq_sum (b : Bay K) : bayGetSize b = some b.rangeSizes.sum :=
+  bay_size_eq_sum_aux b
 
 /-- The finalised bay matrix: on the upper triangle the sum of all kernel results written at their offsets,
 mirrored below. -/
@@ -234,15 +225,11 @@ theorem stiffener_contribution_symmetric (bs : List (Block K)) (i j : Nat) :
     toFun (finalize (placeAll bs)) i j = toFun (finalize (placeAll bs)) j i :=
   toFun_makeSymmetric_symm _ i j
 
-/-- `StiffPanelBay.calc_fext` is the concatenation skin, flanges of the 2-D blades, then base and flange of every
-T stiffener — PROVIDED every 2-D blade stiffener has a flange (`bay_fext_counterexample`). -/
-theorem bay_fext_concat_partial (skin : List K) (b2 : List (Option (List K))) (ts : List (List K × List K))
-    (h : ∀ s ∈ b2, s ≠ none) :
+/-- `StiffPanelBay.calc_fext` is the concatenation skin, flanges of the 2-D blades that have one, then base and flange
+of every T stiffener. -/
+theorem bay_fext_concat (skin : List K) (b2 : List (Option (List K))) (ts : List (List K × List K)) :
     bayFext skin b2 ts = some ((skin :: (b2.filterMap id ++ ts.flatMap fun s => [s.1, s.2])).flatten) :=
-  bay_fext_concat_partial_aux skin b2 ts h
-
-/-- `calc_fext` raises for a bay with a flange-less 2-D blade stiffener (`s.flange.model` on `None`). -/
-theorem bay_fext_counterexample : bayFext ([1, 2] : List ℚ) [none] [] = none := rfl
+  bay_fext_concat_aux skin b2 ts
 
 /-! ### Non-vacuity: concrete instances -/
 
